@@ -77,6 +77,11 @@ type logger struct {
 	Name string
 	Tags []string // as listed (literals and wildcards), may contain duplicates
 	Raw  string   // rendered tags attribute
+	// Level is the logger's level attribute ("" = not written). Serving a tag is independent of it:
+	// a logger whose range excludes the event (or is empty) still owns its tags - the event then
+	// reaches nobody, in particular not a broader logger or root.
+	Level  string
+	Silent bool // the range does not admit INFO
 }
 
 type cfg struct {
@@ -90,11 +95,12 @@ func renderTags(t *rapid.T, tags []string, label string) string {
 	var b strings.Builder
 	for i, tg := range tags {
 		if i > 0 {
-			b.WriteString(rapid.SampledFrom([]string{",", ", ", " ,", ",,", " , ,"}).Draw(t, label+"sep"))
+			// entries are comma-separated and trimmed of white space (a list may be laid out over lines)
+			b.WriteString(rapid.SampledFrom([]string{",", ", ", " ,", ",,", " , ,", ",\n", ",\r\n  ", "\t,\t", "\n,"}).Draw(t, label+"sep"))
 		}
 		b.WriteString(tg)
 	}
-	return rapid.SampledFrom([]string{"", "", " ", ","}).Draw(t, label+"lead") + b.String() + rapid.SampledFrom([]string{"", "", " ", ",", " , "}).Draw(t, label+"trail")
+	return rapid.SampledFrom([]string{"", "", " ", ",", "\n"}).Draw(t, label+"lead") + b.String() + rapid.SampledFrom([]string{"", "", " ", ",", " , ", "\n", ",\n"}).Draw(t, label+"trail")
 }
 
 func genCfg(t *rapid.T) cfg {
@@ -131,6 +137,12 @@ func genCfg(t *rapid.T) cfg {
 		// the same logger listing a string twice is legal
 		if rapid.IntRange(0, 4).Draw(t, "dupSame") == 0 {
 			lg.Tags = append(lg.Tags, lg.Tags[0])
+		}
+		switch rapid.IntRange(0, 7).Draw(t, "level") {
+		case 0:
+			lg.Level = rapid.SampledFrom([]string{"info", "DEBUG", "trace~error", "NONE"}).Draw(t, "admits")
+		case 1:
+			lg.Level, lg.Silent = rapid.SampledFrom([]string{"MAX", "ERROR~ERROR", "ERROR~INFO", "warn", "NONE~INFO"}).Draw(t, "silent"), true
 		}
 		c.Loggers = append(c.Loggers, lg)
 	}
@@ -192,6 +204,9 @@ func (c cfg) toMap() map[string]string {
 		if lg.Raw != "<omit>" {
 			m["logger."+lg.Name+".tags"] = lg.Raw
 		}
+		if lg.Level != "" {
+			m["logger."+lg.Name+".level"] = lg.Level
+		}
 	}
 	if c.Root {
 		m["appender.recroot.type"] = "Rec"
@@ -207,7 +222,7 @@ func (c cfg) toMap() map[string]string {
 func (c cfg) desc() string {
 	var parts []string
 	for _, lg := range c.Loggers {
-		parts = append(parts, fmt.Sprintf("%s:%q", lg.Name, lg.Raw))
+		parts = append(parts, fmt.Sprintf("%s:%q level=%q", lg.Name, lg.Raw, lg.Level))
 	}
 	return fmt.Sprintf("loggers{%s} root=%v rootTags=%q fault=%q", strings.Join(parts, " "), c.Root, c.RootRaw, c.Fault)
 }
@@ -305,6 +320,19 @@ func TestC02_Routing(t *testing.T) {
 				got := append([]string{}, where[n]...)
 				if strings.Contains(con, "] "+n+"||") {
 					got = append(got, "console")
+				}
+				silent := false
+				for _, lg := range c.Loggers {
+					if lg.Name == want && lg.Silent {
+						silent = true
+					}
+				}
+				if silent {
+					if len(got) != 0 {
+						t.Fatalf("VERIF-VIOLATION C02: tag %q belongs to logger %s, whose level range excludes the event, but the event was delivered by %v: another logger served the tag (round %d)\nconfig: %s", n, want, got, round, c.desc())
+					}
+					vk.Class("tag-owned-by-silent-logger")
+					continue
 				}
 				if len(got) != 1 || got[0] != want {
 					t.Fatalf("VERIF-VIOLATION C02: tag %q was served by %v, expected exactly [%s] (round %d)\nconfig: %s", n, got, want, round, c.desc())
